@@ -43,6 +43,7 @@ type deferEntry struct {
 	active string
 	args   []Val
 	fnVal  Val
+	wide   bool // registered by earlier iterations of a loop: effects applied wholesale at exit
 }
 
 type State struct {
@@ -753,19 +754,23 @@ func (c *FnCtx) merge(ins []edgeIn) (*State, string) {
 		}
 	}
 	// defers: union by instruction
-	seen := map[*ssa.Defer]bool{}
+	type deferKey struct {
+		instr *ssa.Defer
+		wide  bool
+	}
+	seen := map[deferKey]bool{}
 	for _, in := range ins {
 		for _, d := range in.st.defers {
-			if seen[d.instr] {
+			if seen[deferKey{d.instr, d.wide}] {
 				continue
 			}
-			seen[d.instr] = true
+			seen[deferKey{d.instr, d.wide}] = true
 			var acts []string
 			var argCols [][]Val
 			for _, in2 := range ins {
 				found := false
 				for _, d2 := range in2.st.defers {
-					if d2.instr == d.instr {
+					if d2.instr == d.instr && d2.wide == d.wide {
 						acts = append(acts, d2.active)
 						argCols = append(argCols, d2.args)
 						found = true
